@@ -73,6 +73,8 @@ pub struct Cfg {
     pub mass_storage: MatrixStorage,
     pub budget: u64,
     pub keep_log: bool,
+    /// low-level Radau/BDF only: builder option newton_tol
+    pub newton_tol: Option<f64>,
 }
 
 impl Cfg {
@@ -96,6 +98,7 @@ impl Cfg {
             mass_storage: MatrixStorage::Identity,
             budget: 2_000_000,
             keep_log: false,
+            newton_tol: None,
         }
     }
     pub fn tol(mut self, rtol: f64, atol: f64) -> Self {
@@ -285,7 +288,7 @@ pub fn run_lowlevel(
             s.solve(&probe, c.x0, &c.y0, c.xend, rtol, atol, Some(&mut so))
         }
         Method::RADAU => {
-            let b = RADAU::builder().maybe_max_step(c.max_step).maybe_first_step(c.first_step).jac_storage(c.jac_storage.clone());
+            let b = RADAU::builder().maybe_max_step(c.max_step).maybe_first_step(c.first_step).jac_storage(c.jac_storage.clone()).maybe_newton_tol(c.newton_tol);
             let s = match (c.max_steps, set_mass_storage) {
                 (Some(m), true) => b.max_steps(m).mass_storage(c.mass_storage.clone()).build(),
                 (Some(m), false) => b.max_steps(m).build(),
